@@ -1,6 +1,7 @@
 /-
   Driver.Recv — suite `receiver`: runs the receiver model on event / history lines.
 -/
+import Std.Data.HashSet
 import Driver.Pure
 import TT.Model.History
 
@@ -140,10 +141,22 @@ def recvStepCore (st : RecvState) (ts : List String) : RecvState × List String 
         | .loseNew => { w with host := {} }
         | _ => w
       ({ st with sys := s' }, out1 ++ delta w' s'.σ.w)
+  | ["leakprobe", _, tgt] =>
+    -- harness-only probe (heap growth over repeated executions); it interns six descriptions
+    -- `leak0..leak5` in the process-wide arena, which the `stats` lines count
+    let mk (i : Nat) : CallSite :=
+      { kind := if i % 2 = 0 then .span else .event, name := ("leak" ++ toString i).toUTF8.toList.map (·.toNat),
+        target := tgt.toUTF8.toList.map (·.toNat), level := .info, modulePath := none,
+        file := some ("src/leak.rs".toUTF8.toList.map (·.toNat)), line := some i,
+        fields := ["a".toUTF8.toList.map (·.toNat), "b".toUTF8.toList.map (·.toNat)] }
+    let arena := (List.range 6).foldl (fun (a : List CallSite) i => if a.contains (mk i) then a else a ++ [mk i]) s.σ.w.arena
+    ({ st with sys := { s with σ := { s.σ with w := { s.σ.w with arena } } } }, [])
   | ["stats"] =>
     let arena := s.σ.w.arena
     let strs := arena.flatMap fun d => [d.name, d.target] ++ d.modulePath.toList ++ d.file.toList ++ d.fields
-    (st, [s!"stats {strs.eraseDups.length} {arena.length}"])
+    -- (distinct strings counted through a hash set: `eraseDups` is quadratic in the arena's size)
+    let distinct := (strs.foldl (fun (acc : Std.HashSet (List Nat)) x => acc.insert x) {}).size
+    (st, [s!"stats {distinct} {arena.length}"])
   | ["h", "discard"] =>
     let w := dropR s.σ
     let out1 := sortLines (delta s.σ.w w) ++ [showStack w.host.stack]
